@@ -284,12 +284,18 @@ class Exec:
             if kwargs:
                 op['k'] = {k: self.enc(v) for k, v in kwargs.items()}
         except Exception:
-            from .monitor import short
+            # (cheap on purpose: this runs on every outermost call, also those an oracle makes while observing)
             op = {'m': name, 'cls': clsname, 'unrecorded': 'receiver or argument built by the driver outside the pool',
-                  'recv': short(recv) if recv is not None else None, 'a': [short(a) for a in args],
-                  'k': {k: short(v) for k, v in kwargs.items()}}
+                  'a': [a if isinstance(a, (int, float, bool, type(None))) or (isinstance(a, str) and len(a) < 80)
+                        else type(a).__name__ for a in args]}
         op['direct'] = True
-        self.ctx.history.append(op)
+        h = self.ctx.history
+        self.n_direct = getattr(self, 'n_direct', 0) + 1
+        if self.n_direct > 300 and h and h[-1].get('direct'):
+            # long observation loops: keep the transcript bounded, the latest call (the one being judged) stays
+            h[-1] = op
+        else:
+            h.append(op)
 
     # -- spec decoding ----------------------------------------------------
     def dec(self, x):
@@ -378,6 +384,15 @@ class Exec:
                     res = recv == a[0]
                 elif m == 'repr':
                     res = repr(recv)
+                elif m == 'pycopy':
+                    import copy as _copy
+                    import pickle as _pickle
+                    if a[0] == 'copy':
+                        res = _copy.copy(recv)
+                    elif a[0] == 'deepcopy':
+                        res = _copy.deepcopy([recv])[0]
+                    else:
+                        res = _pickle.loads(_pickle.dumps(recv, int(a[0][6:])))
                 else:
                     res = getattr(recv, m)(*a, **k)
         except (Exception, StepBudgetExceeded) as e:  # the monitors have already seen it
@@ -560,6 +575,9 @@ class HistoryGen:
         n = len(v.base_str)
         R = {'$': ri}
         if kind == 'copy':
+            if rng.random() < 0.3:
+                # the standard copy / pickle protocols (both classes)
+                return {'m': 'pycopy', 'r': ri, 'a': [rng.choice(['copy', 'deepcopy', 'pickle0', 'pickle2', 'pickle5'])]}
             if is_mut and rng.random() < 0.5:
                 return {'m': 'copy', 'r': ri}
             return {'m': 'new', 'cls': type(v).__name__, 'a': [R]}
